@@ -331,8 +331,9 @@ class Module(object):
 class Repo(object):
   """All Python sources under <root>/openhtf (plus examples/bin/test lazily)."""
 
-  def __init__(self, root=None):
+  def __init__(self, root=None, overrides=None):
     self.root = root or REPO_DIR
+    self.overrides = overrides or {}
     self.modules = {}
     self.parse_errors = []
     pkg = os.path.join(self.root, 'openhtf')
@@ -345,8 +346,11 @@ class Repo(object):
         if fn.endswith('.py'):
           full = os.path.join(dirpath, fn)
           rel = os.path.relpath(full, self.root)
-          with open(full, encoding='utf-8') as f:
-            src = f.read()
+          if rel in self.overrides:
+            src = self.overrides[rel]
+          else:
+            with open(full, encoding='utf-8') as f:
+              src = f.read()
           try:
             self.modules[rel] = Module(rel, src)
           except SyntaxError as e:
